@@ -212,8 +212,10 @@ func C09(c *Ctx) error {
 				var ds []any
 				for _, s := range ks.sent {
 					if s.has {
-						m := libVerdicts(s.value)
-						m["name"], m["value"] = s.name, s.value
+						// net/http (textproto) strips optional white space around a field value
+						seenVal := strings.Trim(s.value, " \t")
+						m := libVerdicts(seenVal)
+						m["name"], m["value"] = s.name, seenVal
 						ds = append(ds, m)
 					}
 				}
